@@ -317,6 +317,11 @@ def direct_oracle(inp, obs):
     for cell, o in zip(inp["cells"], obs["cells"]):
         if o[0] == "leak" and not inp.get("hostile"):
             return "validated_value(%r) raised %s instead of a FieldValueError" % (cell, o[1])
+    for text, want in inp.get("canonical", []):
+        if text in inp["cells"]:
+            got = obs["cells"][inp["cells"].index(text)]
+            if got != ["ok", ["time"] + want]:
+                return "DateTime layout %r: the canonically written value %r must be accepted as %r but gave %r" % (inp["rule"], text, want, got)
     if inp["type"] == "Integer" and inp["rule"].strip() == "" and inp["length"].strip() != "" and inp.get("sweep"):
         lens = length_items(inp["length"])
         if inp["fmt"] == "fixed":
@@ -486,6 +491,7 @@ def gen_choice(tier, rnd):
         yield base("Text", fmt, "" if fmt != "fixed" else "4", "", ["a", " ", "äö", "x" * 40, "1", "\t"])
 
 
+ADJACENT_LAYOUTS = ["MMmm", "hhMMmm", "DDMMmmss", "YYMMDDhhmmss", "mmMM", "ssmm", "DDMM%mm"]
 LAYOUTS = ["DD.MM.YYYY", "YYYY-MM-DD", "DD/MM/YY", "hh:mm:ss", "YYYY-MM-DD hh:mm:ss", "DDMMYYYY", "MM/DD", "DD.MM", "hh:mm", "YYYYMMDDhhmmss",
            "DD. MM. YYYY", "YYYY", "MM", "DD", "ss", "YY-MM-DD", "DD.MM.YYYY hh:mm", "YYYY-MM-DDThh:mm:ss", "DD%MM", "hh.mm.ss YYYY/MM/DD"]
 ODD_LAYOUTS = ["DD.DD", "MMm", "DD MMm", "D.M.Y", "", "YYYYY", "YYY", "hhh", "DD\tMM", "%d.%m", "DD.MM.YYYY YY", "dd.mm.yyyy", "DD.MM.YYYYä"]
@@ -498,6 +504,19 @@ def render_layout(layout, y, mo, d, h, mi, s, pad=True):
     return out
 
 
+def expected_tuple(layout, y, mo, d, h, mi, s):
+    """what a canonical rendering of this date in this layout denotes (fields that are not in the layout take strptime's defaults)"""
+    has = lambda tok: tok in layout  # noqa
+    if has("YYYY"):
+        year = y
+    elif has("YY"):
+        yy = y % 100
+        year = 2000 + yy if yy <= 68 else 1900 + yy
+    else:
+        year = 1900
+    return [year, mo if has("MM") else 1, d if has("DD") else 1, h if has("hh") else 0, mi if has("mm") else 0, s if has("ss") else 0]
+
+
 DATE_POINTS = [(2000, 2, 29), (1900, 2, 29), (1904, 2, 29), (2100, 2, 29), (2023, 2, 28), (2023, 4, 30), (2023, 4, 31), (2023, 12, 31), (2023, 1, 1),
                (2023, 0, 10), (2023, 13, 10), (2023, 6, 0), (2023, 6, 32), (1968, 5, 5), (1969, 5, 5), (2068, 5, 5), (2069, 5, 5), (1, 1, 1),
                (0, 1, 1), (9999, 12, 31), (2024, 2, 29), (2023, 7, 4), (2023, 10, 10), (2023, 11, 30), (2023, 11, 31)]
@@ -505,7 +524,7 @@ TIME_POINTS = [(0, 0, 0), (23, 59, 59), (24, 0, 0), (12, 60, 0), (12, 0, 60), (1
 
 
 def gen_datetime(tier, rnd):
-    for layout, fmt in itertools.product(LAYOUTS, ("delimited", "excel", "fixed")):
+    for layout, fmt in itertools.product(LAYOUTS + ADJACENT_LAYOUTS, ("delimited", "excel", "fixed")):
         if fmt == "fixed" and layout not in ("DD.MM.YYYY", "hh:mm"):
             continue
         cells = []
@@ -520,7 +539,9 @@ def gen_datetime(tier, rnd):
                   c2.replace("0", " ", 1), c2 + " 00:00:00 00:00:00", " 00:00:00", "1", "a"]
         for _ in range(10 if tier == "quick" else 60):
             cells.append(mutate(rnd, c2, "0123456789 .:-/"))
-        yield base("DateTime", fmt, "" if fmt != "fixed" else str(len(layout) + 2), layout, sorted(set(x for x in cells if x)))
+        canonical = [[render_layout(layout, y, mo, d, h, mi, sec), expected_tuple(layout, y, mo, d, h, mi, sec)]
+                     for (y, mo, d), (h, mi, sec) in zip([(2023, 7, 4), (2000, 2, 29), (1999, 12, 31), (2068, 1, 1), (1969, 11, 30)], [(0, 0, 0), (23, 59, 59), (7, 5, 3), (19, 30, 45), (12, 0, 59)])]
+        yield base("DateTime", fmt, "" if fmt != "fixed" else str(len(layout) + 2), layout, sorted(set(x for x in cells if x)), canonical=canonical)
     for layout in ODD_LAYOUTS:
         cells = ["01.02", "1.2.3", "0707", "07 07m", "07 %M", "%M", "2023", "20233", "01.02.2023 23", "01\t02", "01  02", "01.02.2023", "x", "%d.%m", "07"]
         yield base("DateTime", "delimited", "", layout, cells, hostile=True)
